@@ -162,3 +162,259 @@ fn c07_float_zero_and_infinity() {
     assert!(u.intersects(&l) == (a <= b));
     kani::cover!(x == 0.0 && i.contains(&x));
 }
+
+// ---------------------------------------------------------------- C13: scalar arithmetic
+#[derive(Clone, Copy, PartialEq)]
+enum Op { Add, Sub, Mul, Div, Neg }
+
+fn apply_i16(op: Op, x: i16, k: i16) -> i16 {
+    match op {
+        Op::Add => x + k,
+        Op::Sub => x - k,
+        Op::Mul => x * k,
+        Op::Div => x / k,
+        Op::Neg => -x,
+    }
+}
+fn in_i8(v: i16) -> bool { -128 <= v && v <= 127 }
+
+// A op k for an interval A of the given kind: sound, tight, well-formed, right kind.
+fn check_scalar(op: Op, kind: u8) {
+    let a = any_interval_i8(kind);
+    let k: i8 = kani::any();
+    if op == Op::Div { kani::assume(k != 0); }
+    // precondition: the bound computations do not overflow
+    let bnds: [Option<i8>; 2] = match a {
+        Interval::TwoSided(l, h) => [Some(l), Some(h)],
+        Interval::UpperOneSided(l) => [Some(l), None],
+        Interval::LowerOneSided(h) => [None, Some(h)],
+    };
+    for b in bnds.iter().flatten() {
+        kani::assume(in_i8(apply_i16(op, *b as i16, k as i16)));
+    }
+    let r = match op {
+        Op::Add => a + k,
+        Op::Sub => a - k,
+        Op::Mul => a * k,
+        Op::Div => a / k,
+        Op::Neg => -a,
+    };
+    // the order-direction of the map x -> x op k
+    let increasing = match op { Op::Add | Op::Sub => true, Op::Mul | Op::Div => k > 0, Op::Neg => false };
+    let constant = op == Op::Mul && k == 0;
+    // (well-formed)
+    if let Interval::TwoSided(l, h) = r { assert!(l <= h, "result has lower bound above upper bound"); }
+    // (kind) unbounded on exactly the side the image is
+    match a {
+        Interval::TwoSided(..) => assert!(r.is_two_sided(), "image of a bounded interval is bounded"),
+        Interval::UpperOneSided(_) => {
+            if constant { assert!(r.is_two_sided()); }
+            else if increasing { assert!(r.is_upper(), "image of [l,+inf) under an increasing map is [.,+inf)"); }
+            else { assert!(r.is_lower(), "image of [l,+inf) under a decreasing map is (-inf,.]"); }
+        }
+        Interval::LowerOneSided(_) => {
+            if constant { assert!(r.is_two_sided()); }
+            else if increasing { assert!(r.is_lower(), "image of (-inf,h] under an increasing map is (-inf,.]"); }
+            else { assert!(r.is_upper(), "image of (-inf,h] under a decreasing map is [.,+inf)"); }
+        }
+    }
+    // (sound) every member maps into the result
+    let x: i8 = kani::any();
+    if a.contains(&x) && in_i8(apply_i16(op, x as i16, k as i16)) {
+        let y = apply_i16(op, x as i16, k as i16) as i8;
+        assert!(r.contains(&y), "x in A but x op k not in A op k");
+    }
+    // (tight) every finite bound of the result is the image of a bound of A (bounds are members)
+    let img = |b: i8| apply_i16(op, b as i16, k as i16) as i8;
+    let attained = |v: i8| bnds.iter().flatten().any(|b| img(*b) == v);
+    match r {
+        Interval::TwoSided(l, h) => assert!(attained(l) && attained(h), "bound not attained"),
+        Interval::UpperOneSided(l) => assert!(attained(l), "bound not attained"),
+        Interval::LowerOneSided(h) => assert!(attained(h), "bound not attained"),
+    }
+    kani::cover!(k > 0);
+    kani::cover!(k < 0);
+}
+
+macro_rules! scalar_harnesses {
+    ($($name:ident: $op:expr, $kind:expr;)*) => { $( #[kani::proof] #[kani::unwind(4)] fn $name() { check_scalar($op, $kind); } )* };
+}
+scalar_harnesses! {
+    c13_add_scalar_two: Op::Add, 0; c13_add_scalar_upper: Op::Add, 1; c13_add_scalar_lower: Op::Add, 2;
+    c13_sub_scalar_two: Op::Sub, 0; c13_sub_scalar_upper: Op::Sub, 1; c13_sub_scalar_lower: Op::Sub, 2;
+    c13_mul_scalar_two: Op::Mul, 0; c13_mul_scalar_upper: Op::Mul, 1; c13_mul_scalar_lower: Op::Mul, 2;
+    c13_div_scalar_two: Op::Div, 0; c13_div_scalar_upper: Op::Div, 1; c13_div_scalar_lower: Op::Div, 2;
+    c13_neg_two: Op::Neg, 0; c13_neg_upper: Op::Neg, 1; c13_neg_lower: Op::Neg, 2;
+}
+
+// ---------------------------------------------------------------- C13: interval (+|-) interval
+fn lo_of(i: &Interval<i8>) -> Option<i8> { match i { Interval::TwoSided(l, _) | Interval::UpperOneSided(l) => Some(*l), _ => None } }
+fn hi_of(i: &Interval<i8>) -> Option<i8> { match i { Interval::TwoSided(_, h) | Interval::LowerOneSided(h) => Some(*h), _ => None } }
+
+fn check_binary(sub: bool, ka: u8, kb: u8) {
+    let a = any_interval_i8(ka);
+    let b = any_interval_i8(kb);
+    // image bounds in Z: A+B = [lo(a)+lo(b), hi(a)+hi(b)];  A-B = [lo(a)-hi(b), hi(a)-lo(b)]
+    let (bl, bh) = if sub { (hi_of(&b), lo_of(&b)) } else { (lo_of(&b), hi_of(&b)) };
+    let f = |x: i8, y: i8| if sub { x as i16 - y as i16 } else { x as i16 + y as i16 };
+    let exp_lo = match (lo_of(&a), bl) { (Some(x), Some(y)) => Some(f(x, y)), _ => None };
+    let exp_hi = match (hi_of(&a), bh) { (Some(x), Some(y)) => Some(f(x, y)), _ => None };
+    // compatible pairs only (the incompatible ones are documented to panic: see C11)
+    kani::assume(exp_lo.is_some() || exp_hi.is_some());
+    // no overflow in any bound computation the implementation might perform
+    for p in [lo_of(&a), hi_of(&a)].iter().flatten() {
+        for q in [lo_of(&b), hi_of(&b)].iter().flatten() {
+            kani::assume(in_i8(f(*p, *q)));
+        }
+    }
+    let r = if sub { a - b } else { a + b };
+    // (kind + tight) the result is exactly the image: finite bounds are attained by the bounds of A and B
+    assert!(lo_of(&r).map(|v| v as i16) == exp_lo, "lower bound of the result is not the minimum of the image");
+    assert!(hi_of(&r).map(|v| v as i16) == exp_hi, "upper bound of the result is not the maximum of the image");
+    // (well-formed)
+    if let Interval::TwoSided(l, h) = r { assert!(l <= h); }
+    // (sound) universal members
+    let x: i8 = kani::any();
+    let y: i8 = kani::any();
+    if a.contains(&x) && b.contains(&y) && in_i8(f(x, y)) {
+        assert!(r.contains(&(f(x, y) as i8)), "x in A, y in B but x op y not in A op B");
+    }
+    kani::cover!(true);
+}
+macro_rules! binary_harnesses {
+    ($($name:ident: $sub:expr, $ka:expr, $kb:expr;)*) => { $( #[kani::proof] #[kani::unwind(4)] fn $name() { check_binary($sub, $ka, $kb); } )* };
+}
+binary_harnesses! {
+    c13_add_two_two: false, 0, 0; c13_add_two_upper: false, 0, 1; c13_add_two_lower: false, 0, 2;
+    c13_add_upper_two: false, 1, 0; c13_add_upper_upper: false, 1, 1;
+    c13_add_lower_two: false, 2, 0; c13_add_lower_lower: false, 2, 2;
+    c13_sub_two_two: true, 0, 0; c13_sub_two_upper: true, 0, 1; c13_sub_two_lower: true, 0, 2;
+    c13_sub_upper_two: true, 1, 0; c13_sub_upper_lower: true, 1, 2;
+    c13_sub_lower_two: true, 2, 0; c13_sub_lower_upper: true, 2, 1;
+}
+
+// relative_to: BOUNDED stand-in.  All bounds and members on the integer grid 0..=16 as f32
+// (differences exact, one correctly rounded division, rounding is monotone, so float
+// comparison agrees with real comparison).
+fn grid() -> f32 {
+    let v: u8 = kani::any();
+    kani::assume(v <= 16);
+    v as f32
+}
+fn any_interval_grid(kind: u8, strictly_positive: bool) -> Interval<f32> {
+    let a = grid();
+    let b = grid();
+    if strictly_positive { kani::assume(a > 0.0 && b > 0.0); }
+    match kind {
+        0 => { kani::assume(a <= b); Interval::TwoSided(a, b) }
+        1 => Interval::UpperOneSided(a),
+        _ => Interval::LowerOneSided(a),
+    }
+}
+fn check_relative(ks: u8, kr: u8) {
+    let s = any_interval_grid(ks, false);
+    let r = any_interval_grid(kr, true);
+    let rel = s.relative_to(&r);
+    let x = grid();
+    let y = grid();
+    if s.contains(&x) && r.contains(&y) {
+        // encloses (x - r)/r for all members
+        assert!(rel.contains(&((x - y) / y)), "relative_to does not enclose (x-r)/r");
+    }
+    // attains its bounds: lower bound at (low of self, high of reference), upper at (high of self, low of reference)
+    if let Some(l) = rel.left() {
+        let (sl, rh) = (s.low_f(), r.high_f());
+        assert!(s.contains(&sl) && r.contains(&rh) && *l == (sl - rh) / rh, "lower bound not attained");
+    }
+    if let Some(h) = rel.right() {
+        let (sh, rl) = (s.high_f(), r.low_f());
+        assert!(s.contains(&sh) && r.contains(&rl) && *h == (sh - rl) / rl, "upper bound not attained");
+    }
+    if let Interval::TwoSided(l, h) = rel { assert!(l <= h); }
+    kani::cover!(true);
+}
+macro_rules! relative_harnesses {
+    ($($name:ident: $ks:expr, $kr:expr;)*) => { $( #[kani::proof] fn $name() { check_relative($ks, $kr); } )* };
+}
+// The property's domain: a non-negative interval (two-sided or [l,+inf), l >= 0) against a strictly
+// positive reference (two-sided or [l,+inf), l > 0).  (-inf, h] is neither, and upper/upper is a documented panic.
+relative_harnesses! {
+    c13_relative_two_two: 0, 0; c13_relative_two_upper: 0, 1;
+    c13_relative_upper_two: 1, 0;
+}
+
+// ---------------------------------------------------------------- C15: partial order
+fn expected_cmp(a: &Interval<i8>, b: &Interval<i8>) -> Option<Ordering> {
+    if a == b {
+        Some(Ordering::Equal)
+    } else if matches!((hi_of(a), lo_of(b)), (Some(h), Some(l)) if h <= l) {
+        Some(Ordering::Less)
+    } else if matches!((hi_of(b), lo_of(a)), (Some(h), Some(l)) if h <= l) {
+        Some(Ordering::Greater)
+    } else {
+        None
+    }
+}
+#[kani::proof]
+fn c15_partial_cmp_matches_spec() {
+    let a = any_interval_i8(any_kind());
+    let b = any_interval_i8(any_kind());
+    let r = a.partial_cmp(&b);
+    assert!(r == expected_cmp(&a, &b));
+    // Equal exactly when ==
+    assert!((r == Some(Ordering::Equal)) == (a == b));
+    // a < b exactly when b > a
+    assert!((r == Some(Ordering::Less)) == (b.partial_cmp(&a) == Some(Ordering::Greater)));
+    assert!((a < b) == (r == Some(Ordering::Less)));
+    assert!((a > b) == (r == Some(Ordering::Greater)));
+    kani::cover!(r == Some(Ordering::Less));
+    kani::cover!(r == Some(Ordering::Equal));
+    kani::cover!(r.is_none());
+}
+// a < b  <=>  a != b and every member of a is <= every member of b
+#[kani::proof]
+fn c15_less_is_memberwise() {
+    let a = any_interval_i8(any_kind());
+    let b = any_interval_i8(any_kind());
+    let less = a.partial_cmp(&b) == Some(Ordering::Less);
+    let x = any_probe();
+    let y = any_probe();
+    if less {
+        assert!(a != b);
+        assert!(!(den(&a, x) && den(&b, y)) || x <= y);
+    } else if a != b {
+        // some member of a exceeds some member of b: extreme members as witnesses
+        let xa = match hi_of(&a) { Some(h) => h as i16, None => 200 };
+        let yb = match lo_of(&b) { Some(l) => l as i16, None => -200 };
+        assert!(den(&a, xa) && den(&b, yb) && xa > yb);
+    }
+    kani::cover!(less);
+    kani::cover!(!less && a != b);
+}
+#[kani::proof]
+fn c15_transitive() {
+    let a = any_interval_i8(any_kind());
+    let b = any_interval_i8(any_kind());
+    let c = any_interval_i8(any_kind());
+    if a < b && b < c {
+        assert!(a < c);
+        kani::cover!(true);
+    }
+    if a > b && b > c {
+        assert!(a > c);
+    }
+}
+// overlapping in more than a point, or unbounded on the same side => incomparable
+#[kani::proof]
+fn c15_incomparable() {
+    let a = any_interval_i8(any_kind());
+    let b = any_interval_i8(any_kind());
+    let x = any_probe();
+    let y = any_probe();
+    let same_side = (a.is_upper() && b.is_upper()) || (a.is_lower() && b.is_lower());
+    if a != b && (same_side || (x != y && den(&a, x) && den(&b, x) && den(&a, y) && den(&b, y))) {
+        assert!(a.partial_cmp(&b).is_none());
+        kani::cover!(same_side);
+        kani::cover!(!same_side);
+    }
+}
